@@ -25,6 +25,7 @@ import (
 	"github.com/google/badwolf/storage"
 	"github.com/google/badwolf/storage/memory"
 	"github.com/google/badwolf/triple"
+	"github.com/google/badwolf/triple/literal"
 	"github.com/google/badwolf/triple/node"
 	"github.com/google/badwolf/triple/predicate"
 )
@@ -251,6 +252,11 @@ func stress(r *rng, seconds float64, goroutines int) string {
 	ctx := context.Background()
 	st := memory.NewStore()
 	uni := concUniverse()
+	// (literal objects too: their UUIDs go through a shared buffer pool)
+	for i, l := range []*literal.Literal{mustLit(literal.Text, strings.Repeat("long text ", 400)), mustLit(literal.Blob, []byte(strings.Repeat("b", 3000))), mustLit(literal.Int64, int64(1)<<60)} {
+		t, _ := triple.New(mustNode("/u", []string{"a", "b", "a"}[i]), mustImm("p"), triple.NewLiteralObject(l))
+		uni = append(uni, t)
+	}
 	names := []string{"?g", "?h", "?i"}
 	g0, _ := st.NewGraph(ctx, names[0])
 	// temporal triples for the statements whose predicate is bounded by bindings (one window per row, rows in parallel)
@@ -335,6 +341,8 @@ func stress(r *rng, seconds float64, goroutines int) string {
 		`delete data from ?g {/u<a> "p"@[] /u<x>};`,
 		`construct {?s "q"@[] ?o} into ?h from ?g where {?s "p"@[] ?o};`,
 		`show graphs;`,
+		`insert data into ?g, ?h, ?i {/u<a> "p"@[] /u<m> . /u<b> "p"@[] "7"^^type:int64};`,
+		`delete data from ?h, ?g {/u<a> "p"@[] /u<m>};`,
 		`select ?s, ?t, ?o from ?g where {?s "q"@[?t] ?x . ?s "r"@[?t,] ?o};`,
 		`select ?s, ?u from ?g where {?s "q"@[?t] ?x . ?s "r"@[?u] ?y . ?z "q"@[?t,?u] ?w};`,
 	}
